@@ -27,7 +27,7 @@ def run(ctx):
         case['st'] = st
         prng = core.random.Random(rng.randrange(1 << 30))
         nb = prng.choice([1, 2, 2, 3, 4, 5, 8])
-        be = BACKENDS[0] if ctx.quick and ci % 4 else BACKENDS[(ci + ctx.seed) % 4]
+        be = BACKENDS[0] if ctx.quick and ci % 4 else BACKENDS[1 + (ci // 4 + ctx.seed) % 3] if ctx.quick else BACKENDS[(ci + ctx.seed) % 4]
         stats['batch_sizes'][nb] = stats['batch_sizes'].get(nb, 0) + 1
         stats['backends'][be[0]] = stats['backends'].get(be[0], 0) + 1
         c01.set_backend(*be)
